@@ -174,6 +174,7 @@ static hc::Outcome run_one(hc::RunSpec& rs) {
     c.def("model", model); model = (int)c.i("model") % models::N_MODELS; if (model < 0) model = 0; c.set("model", model);
     c.def("mp", r.pct(15) ? 0 : r.range(1, 100000));
     c.def("nosym", r.pct(15));
+    if (models::is_big(model)) c.set("nosym", 0);   // one 64-dimensional block makes a single two-particle GF cost minutes under the sanitizers
     c.def("beta", r.pick(std::vector<int>{1, 2, 3, 5, 8, 10, 20}));
     c.def("wf", r.pct(25) ? 0 : 1);
     { // 1..3 consecutive bulk computations; the first is split with 65 %, clears terms with 12 %
@@ -184,9 +185,9 @@ static hc::Outcome run_one(hc::RunSpec& rs) {
     c.def("hrep", r.pct(80) ? 0 : r.range(1, 15));
     c.def("G", (P >= 2 && r.pct(15)) ? r.range(2, 3) : 1);
     int nm = models::nmodes(model);
-    int K = (c.i("wf") == 0) ? r.range(1, 2) : r.range(1, nm == 2 ? 6 : 5);
+    int K = (c.i("wf") == 0) ? r.range(1, 2) : r.range(1, nm == 2 ? 6 : models::is_big(model) ? 2 : 5);
     { std::string q; std::set<std::string> seen; for (int k = 0; k < K; k++) { std::string s = models::rand_quad(r, nm); if (c.i("wf") == 1 && !seen.insert(s).second) continue; if (!q.empty()) q += ','; q += s; } c.def("quads", q); }
-    { int x = r.below(100); c.def("freqs", x < 18 ? std::string("-") : x < 26 ? models::rand_grid_freqs(r, thorough_models || model == models::ATOM || model == models::ATOM_FIELD ? 8192 : 1025) : models::rand_freqs(r, r.range(1, 6))); }
+    { int x = r.below(100); c.def("freqs", x < 18 ? std::string("-") : x < 26 ? models::rand_grid_freqs(r, (model == models::ATOM || model == models::ATOM_FIELD) ? 8192 : models::is_big(model) ? 65 : 1025) : models::rand_freqs(r, r.range(1, 6))); }
     hc::sim_defaults_from_seed(c, r, P);
     // normalise
     Workload w;
